@@ -1227,7 +1227,7 @@ impl Gen {
         if live_p.is_empty() && choice < 70 || choice < 12 {
             let name = format!("p{tag}");
             self.patches.push(GPatch { name: name.clone(), revs: vec![GRev { name, author: s, ..Default::default() }], removed: false, others: s != 0 });
-            return format!("{}.{sg}.{}", if rng.chance(1, 4) { "pd" } else { "pc" }, rng.below(3));
+            return format!("{}.{sg}.{}", if rng.chance(1, 4) { "pd" } else { "pc" }, rng.pick(&[0, 0, 1, 2]));
         }
         if choice < 70 {
             let pi = *rng.pick(&live_p);
@@ -1237,7 +1237,7 @@ impl Gen {
             let p = self.patches[pi].clone();
             let ri = rng.below(p.revs.len() as u64) as usize;
             let r = &p.revs[ri];
-            return match rng.below(21) {
+            return match rng.below(24) {
                 0..=2 => {
                     self.patches[pi].revs.push(GRev { name: format!("r{tag}"), author: s, ..Default::default() });
                     format!("rev.{sg}.{}.{}", p.name, rng.below(3))
@@ -1263,7 +1263,7 @@ impl Gen {
                     self.patches[pi].revs[ri].reviews.push((format!("v{tag}"), s));
                     format!("rv.{sg}.{}.{}.{}", p.name, r.name, rng.pick(&["a", "r", "n"]))
                 }
-                12 => match r.reviews.first() {
+                12 | 21 => match p.revs.iter().flat_map(|r| r.reviews.first()).next() {
                     Some((v, _)) => format!("rvc.{sg}.{}.{v}", p.name),
                     None => format!("rv.{sg}.{}.{}.a", p.name, r.name),
                 },
@@ -1272,7 +1272,7 @@ impl Gen {
                     None => format!("ed.{sg}.{}.{}", p.name, rng.below(9)),
                 },
                 14..=16 => format!("lc.{sg}.{}.{}", p.name, rng.pick(&["o", "d", "a", "a"])),
-                17 => format!("mg.{sg}.{}.{}", p.name, r.name),
+                17 | 22 | 23 => format!("mg.{sg}.{}.{}", p.name, r.name),
                 18 => format!("ed.{sg}.{}.{}", p.name, rng.below(9)),
                 _ => {
                     self.patches[pi].removed = true;
@@ -1381,7 +1381,7 @@ fn main() {
     }
     if !is_replay {
         let mut rng = ctx.rng();
-        let n = ctx.size(45, 1000);
+        let n = ctx.size(45, 800);
         for _ in 0..n {
             let input = gen_case(&mut rng, 28);
             let (o, annotated) = run_script(&input);
